@@ -150,7 +150,16 @@ class Pool:
                         return
                     k = state["k"]
                     state["k"] += 1
-                    req = make_req(k)
+                    try:
+                        req = make_req(k)
+                    except BaseException as e:  # a generator bug is a harness error, never a silent stop
+                        import traceback
+
+                        out.append((k, {"doc": {"generator_failed": k}}, {"outcome": "harness_error", "detail": f"scenario generator raised {type(e).__name__}: {e}", "traceback": traceback.format_exc()[-3000:], "_worker": widx, "_wseq": seq}))
+                        state["gen_errors"] = state.get("gen_errors", 0) + 1
+                        if state["gen_errors"] > 20:
+                            state["k"] = limit
+                        continue
                 res = w.request(req)
                 # which interpreter ran it and as its how-manyeth run: the process history of a run
                 # (needed to replay violations caused by process-global state left by earlier runs)
